@@ -585,11 +585,18 @@ Definition disjointb (es : list edge) : bool :=
 (* node times: one rank in [0, N) per node, parent strictly older than child on every edge;
    the tracked-count option has one entry per node + the virtual root *)
 Definition tm (ts : tseq) (u : Z) : Z := match get (ts_time ts) u with Ok x => x | _ => 0 end.
+Definition flagb (ts : tseq) (u : Z) : bool :=
+  match get (ts_flags ts) u with Ok f => Z.odd f | _ => false end.
+(* a node's own tracked status: the tree option (1 for a tracked sample) *)
+Definition own0 (ts : tseq) (u : Z) : Z := match get (ts_tracked0 ts) u with Ok x => x | _ => 0 end.
 Definition time_ok (ts : tseq) : bool :=
   (zlen (ts_time ts) =? ts_N ts) &&
   forallb (fun x => (0 <=? x) && (x <? ts_N ts)) (ts_time ts) &&
   forallb (fun ed => tm ts (e_child ed) <? tm ts (e_parent ed)) (ts_edges ts) &&
-  (zlen (ts_tracked0 ts) =? ts_N ts + 1).
+  (zlen (ts_tracked0 ts) =? ts_N ts + 1) &&
+  (* only sample nodes can be tracked (tsk_tree_set_tracked_samples: TSK_ERR_BAD_SAMPLES) *)
+  (zlen (ts_flags ts) =? ts_N ts) &&
+  forallb (fun u => flagb ts u || (own0 ts u =? 0)) (zseq (ts_N ts)).
 
 Definition valid_tsb (ts : tseq) : bool :=
   (0 <? ts_L ts) && (0 <=? ts_N ts) &&
@@ -645,5 +652,39 @@ Definition check_both (ts : tseq) (ops : list op) (expected : list J) : bool :=
   check_trace full ts ops expected &&
   match trace core ts ops with
   | Ok l => J_eqb (JL (map erase_tracked l)) (JL (map erase_tracked expected))
+  | _ => false
+  end.
+
+(* ------------------------------------------------------------------------------ *)
+(* derived views of (parent array, count array): what the quintuply linked arrays present,
+   up to the order of children.  With every sample tracked the count array is num_samples. *)
+Definition children_of (P : list Z) (n u : Z) : list Z :=
+  filter (fun v => match get P v with Ok p => p =? u | _ => false end) (zseq n).
+(* the children of the virtual root: parentless nodes with at least root_threshold samples *)
+Definition roots_of (P C : list Z) (n thr : Z) : list Z :=
+  filter (fun u => match get P u, get C u with
+                   | Ok p, Ok c => (p =? TSK_NULL) && (thr <=? c)
+                   | _, _ => false
+                   end) (zseq n).
+
+Definition obs_views (ts : tseq) (thr : Z) (t : tree) : J :=
+  let n := ts_N ts in
+  JL [jz_list (firstn (Z.to_nat n) (t_tracked t));
+      JL (map (fun u => jz_list (children_of (t_parent t) n u)) (zseq n));
+      jz_list (roots_of (t_parent t) (t_tracked t) n thr)].
+
+Fixpoint views_from (ts : tseq) (thr : Z) (st : tree * tree) (ops : list op) : res (list J) :=
+  match ops with
+  | [] => Ok []
+  | o :: ops' =>
+      do '(st', _) <- py_step full ts st o;
+      do rest <- views_from ts thr st' ops';
+      Ok (obs_views ts thr (fst st') :: rest)
+  end.
+
+(* [ts] must carry the option "every sample is tracked": then t_tracked is num_samples *)
+Definition check_views (ts : tseq) (thr : Z) (ops : list op) (expected : list J) : bool :=
+  match views_from ts thr (init_state ts) ops with
+  | Ok l => J_eqb (JL l) (JL expected)
   | _ => false
   end.
